@@ -706,9 +706,19 @@ func (ex *Exec) visit(fr *frame, instr ssa.Instruction) cont {
 		unsupported("go statement at %s", fr.site(in))
 	case *ssa.MakeChan:
 		ex.chanSeq++
-		fr.set(in, &Chan{id: ex.chanSeq})
+		n := ex.concreteInt(fr.get(in.Size).(*sym.Term), "make chan size")
+		fr.set(in, &Chan{id: ex.chanSeq, capacity: int(n)})
 	case *ssa.Send:
-		unsupported("channel send at %s", fr.site(in))
+		ch, _ := fr.get(in.Chan).(*Chan)
+		switch {
+		case ch == nil:
+			unsupported("send on nil channel at %s", fr.site(in))
+		case ch.closed:
+			ex.rtPanic(fr, "send on closed channel")
+		case len(ch.buf) >= ch.capacity:
+			unsupported("channel send would block (single goroutine) at %s", fr.site(in))
+		}
+		ch.buf = append(ch.buf, copyVal(fr.get(in.X)))
 	case *ssa.Select:
 		unsupported("select at %s", fr.site(in))
 	case *ssa.Alloc:
